@@ -2197,6 +2197,11 @@ class _Simu(_IObserver, _params.Updatable, ABC):
 
     def Bc_Init(self) -> None:
         """Initializes Dirichlet, Neumann and Lagrange boundary conditions"""
+        try:
+            # the Lagrange conditions take part in the size of the matrix system
+            resize = len(self.__Bc_Lagrange) > 0
+        except AttributeError:
+            resize = False  # first initialization
         # DIRICHLET
         self.__Bc_Dirichlet: list[BoundaryCondition] = []
         """Dirichlet conditions list[BoundaryCondition]"""
@@ -2208,6 +2213,8 @@ class _Simu(_IObserver, _params.Updatable, ABC):
         """Lagrange conditions list[BoundaryCondition]"""
         self.__Bc_Display: list[Union[BoundaryCondition, LagrangeCondition]] = []
         """Boundary conditions for display list[BoundaryCondition]"""
+        if resize:
+            self.Need_Update()
 
     @property
     def Bc_Dirichlet(self) -> list[BoundaryCondition]:
@@ -3042,6 +3049,9 @@ class _Simu(_IObserver, _params.Updatable, ABC):
         )
 
         self.__Bc_Dirichlet.append(new_Bc)
+        if len(self.__Bc_Lagrange) > 0:
+            # with Lagrange multipliers the size of the matrix system follows the Dirichlet dofs
+            self.Need_Update()
 
         tic.Tac("Boundary Conditions", "Add Dirichlet condition", self._verbosity)
 
